@@ -4,6 +4,7 @@ import (
 	"bytes"
 	"strconv"
 	"strings"
+	"unicode/utf8"
 )
 
 type grammarOptimizer struct {
@@ -203,7 +204,10 @@ func (r *grammarOptimizer) optimize(expr0 Expression) Visitor {
 			if i > 0 {
 				l0, ok0 := expr.Exprs[i-1].(*LitMatcher)
 				l1, ok1 := expr.Exprs[i].(*LitMatcher)
-				if ok0 && ok1 && l0.IgnoreCase == l1.IgnoreCase {
+				// Literals are matched rune by rune: bytes that are not valid UTF-8
+				// (written with \x or octal escapes) must not be joined, they could
+				// form a rune that neither literal matches.
+				if ok0 && ok1 && l0.IgnoreCase == l1.IgnoreCase && utf8.ValidString(l0.Val) && utf8.ValidString(l1.Val) {
 					r.optimized = true
 					l0.Val += l1.Val
 					expr.Exprs[i-1] = l0
